@@ -887,3 +887,41 @@ Proof.
   rewrite rd_split_app_n by (rewrite blen_enc_words, Lz; unfold nc; lia). cbn [bind].
   unfold index_of_desc. rewrite map_length. reflexivity.
 Qed.
+
+(* ------------------------------------------------------------------ executable construction yields built tables *)
+
+Lemma insert_all_built slots : forall es t t',
+  built slots t ->
+  Forall (fun e => fst e <> 0 /\ fst e < 2 ^ 64 /\ snd e < 2 ^ 32) es ->
+  NoDup (map fst es) ->
+  (forall e, In e es -> forall r, ~ In (fst e, r) t) ->
+  insert_all slots t es = Some t' -> built slots t'.
+Proof.
+  induction es as [|[id row] es IH]; intros t t' Hb F ND Hfresh Hins.
+  - cbn in Hins. inversion Hins; subst. exact Hb.
+  - cbn [insert_all] in Hins. destruct (insert slots t id row) as [t1|] eqn:E1; [|discriminate].
+    inversion F as [|? ? (H0 & H64 & H32) F']; subst. cbn [fst snd] in *.
+    inversion ND as [|? ? Hnotin ND']; subst.
+    pose proof (insert_inserted slots t id row t1 E1) as Hi.
+    assert (Hb1 : built slots t1).
+    { eapply built_insert; eauto. intros r. apply (Hfresh (id, row)). left; reflexivity. }
+    apply (IH t1 t' Hb1 F' ND'); [|exact Hins].
+    intros e He r Hin. destruct Hi as (j & _ & _ & _ & ->).
+    apply In_upd in Hin. destruct Hin as [Heq|Hin].
+    + inversion Heq. apply Hnotin. rewrite <- H1. apply in_map. exact He.
+    + eapply (Hfresh e); [right; exact He|exact Hin].
+Qed.
+
+Lemma insert_all_built_empty slots es t :
+  Forall (fun e => fst e <> 0 /\ fst e < 2 ^ 64 /\ snd e < 2 ^ 32) es ->
+  NoDup (map fst es) ->
+  insert_all slots (empty_table slots) es = Some t -> built slots t.
+Proof.
+  intros F ND H. eapply insert_all_built; [apply built_empty|exact F|exact ND| |exact H].
+  intros e He r Hin. unfold empty_table in Hin. apply repeat_spec in Hin. inversion Hin.
+  rewrite Forall_forall in F. destruct (F e He) as (Hz & _). congruence.
+Qed.
+
+(* contents: the used slots *)
+Lemma contents_spec t e : In e (contents t) <-> In e t /\ fst e <> 0.
+Proof. unfold contents. rewrite filter_In. split; intros [H1 H2]; split; auto; lia. Qed.
